@@ -113,6 +113,14 @@ def is_sym(v):
     return isinstance(v, z3.ExprRef)
 
 
+def short_ty(t):
+    """last path segment of a type, or the last two when the last one is the ubiquitous `Error` (io::Error, de::Error, ...)"""
+    segs = t.strip().split("::")
+    if segs[-1] == "Error" and len(segs) >= 2:
+        return "::".join(segs[-2:])
+    return segs[-1]
+
+
 def strip_generics(s):
     """remove ::<...> groups and <'_> lifetimes"""
     out = []
@@ -356,11 +364,12 @@ class Program:
         for k, fn in self.funcs.items():
             m = re.search(r"<impl at [^>]*>::from\(_1: (.*)\) -> (.*)$", fn.header)
             if m:
-                src = re.sub(r"<.*", "", m.group(1).strip().lstrip("&")).split("::")[-1]
-                dst = re.sub(r"<.*", "", m.group(2).strip()).split("::")[-1]
+                src = short_ty(re.sub(r"<.*", "", m.group(1).strip().lstrip("&")))
+                dst = short_ty(re.sub(r"<.*", "", m.group(2).strip()))
                 self.from_index[(src, dst)] = k
 
-    def mk_struct(self, name, **fields):
+    def mk_struct(self, _struct_name, **fields):
+        name = _struct_name
         """Adt of a named-field struct with the field order read from the source; missing fields are opaque"""
         cands = getattr(self, "struct_fields", {}).get(name)
         if not cands:
